@@ -64,6 +64,17 @@ theorem representations_agree (q : Quirks) (stream : List Id) (lastId start : Id
       | g op => exact h)
   exact ⟨this.agree, this.behind⟩
 
+/-- FULL STATEMENT for a tree with the repaired `add_pending` (`redeliverFix`; whatever the other switches): a
+    delivery preserves agreement for EVERY id list — ids that are already pending change hands as with XCLAIM — and
+    therefore the representations agree after EVERY history from a new group, XGROUP SETID (backwards too) and
+    explicit-id reads included.  By induction over the operation list. -/
+theorem representations_agree_fixed (q : Quirks) (hq : q.redeliverFix = true) (stream : List Id) (lastId start : Id)
+    (ops : List HOp) :
+    Agree (Code.run q (Code.init q stream lastId start) ops).grp ∧
+    (∀ g c ids, Agree g → Agree (Code.addPendingFixed g c ids)) :=
+  ⟨agree_run_fixed q hq ops (σ := Code.init q stream lastId start) (good_newGroup q start).agree,
+   fun _ c ids h => agree_addPendingFixed h c ids⟩
+
 /-- What agreement means for the observable counters: the consumer vectors are a duplicate-free cover of the
     keys of `entries_by_id` (same length in total) and each `pending_count` is the number of rows its consumer owns. -/
 theorem representations_agree_counts (g : Group) (h : Agree g) :
@@ -120,6 +131,17 @@ theorem representations_agree_fails_after_setid_back :
     ¬ Agree (Code.run Quirks.pinned (Code.init Quirks.pinned [(1, 0)] (1, 0) (0, 0))
         [.g (.read 1 none none false), .g (.setid (0, 0)), .g (.read 2 none none false)]).grp := by
   rw [← agreeB_iff]; decide
+
+/-- The same history on the repaired tree: the second read moves 1-0 from c1 to c2 (delivery count 2), every
+    representation follows. -/
+theorem setid_back_redelivery_moves_ownership_when_fixed :
+    Agree (Code.run Quirks.fixed (Code.init Quirks.fixed [(1, 0)] (1, 0) (0, 0))
+        [.g (.read 1 none none false), .g (.setid (0, 0)), .g (.read 2 none none false)]).grp ∧
+    (Code.run Quirks.fixed (Code.init Quirks.fixed [(1, 0)] (1, 0) (0, 0))
+        [.g (.read 1 none none false), .g (.setid (0, 0)), .g (.read 2 none none false)]).grp.byId = [⟨(1, 0), 2, 2⟩] := by
+  constructor
+  · rw [← agreeB_iff]; decide
+  · decide
 
 /-- WITNESS at history level: `>` then XREADGROUP with the explicit id 0 by the same consumer — on the pinned tree
     1-0 is twice in c1's vector and pending_count is 2 for one pending row; the repaired code leaves the state alone. -/
@@ -418,6 +440,32 @@ theorem xpending_range_equals_actual (q : Quirks) (g : Group) (s e : Option Id) 
   · simp only [Spec.pendingRange, Grp.abs, Bool.and_true, List.filter_map, ← List.map_take, List.map_map]
     rfl
 
+/-- XPENDING with a consumer filter on a tree with the repair (`filterFix`), range not reversed: exactly the rows of
+    that consumer with `s ≤ id ≤ e`, in id order, at most `count` — the rows the property prescribes. -/
+theorem xpending_range_consumer_equals_actual (q : Quirks) (hq : q.filterFix = true) (g : Group) (s e : Option Id)
+    (count : Nat) (c : Name) (hse : ∀ lo hi, s = some lo → e = some hi → idLe lo hi = true) :
+    Code.pendingRange q g s e count (some c) =
+      .entries (((g.byId.filter (fun x => inRange s e x.id && x.owner == c)).take count).map Code.showEntry) ∧
+    Spec.pendingRange (Grp.abs g) s e count (some c) =
+      .entries (((g.byId.filter (fun x => inRange s e x.id && x.owner == c)).take count).map
+        (fun x => (x.id, x.owner, 0))) := by
+  constructor
+  · cases e with
+    | none => simp [Code.pendingRange, hq]
+    | some hi =>
+      cases s with
+      | none =>
+        have : idLt hi (0, 0) = false := by
+          cases h : idLt hi (0, 0) with
+          | false => rfl
+          | true => rw [idLt_iff] at h; simp at h
+        simp [Code.pendingRange, hq, this]
+      | some lo =>
+        have : idLt hi lo = false := not_idLt_iff.mpr (hse lo hi rfl rfl)
+        simp [Code.pendingRange, hq, this]
+  · simp only [Spec.pendingRange, Grp.abs, List.filter_map, ← List.map_take, List.map_map]
+    rfl
+
 /-- WITNESS (defect 35): a reversed range on a group that has ever held a pending entry panics on the pinned
     tree; with the repair it is the empty list, as prescribed. -/
 theorem xpending_range_panics_when_reversed :
@@ -432,8 +480,9 @@ theorem xpending_range_panics_when_reversed :
 theorem xpending_consumer_filter_ignores_range :
     let g := Code.addPending (Code.newGroup Quirks.pinned (0, 0)) 1 [(1, 0), (2, 0)]
     Code.pendingRange Quirks.pinned g (some (2, 0)) (some (2, 0)) 10 (some 1) = .entries [((1, 0), 1, 1), ((2, 0), 1, 1)] ∧
-    Spec.pendingRange (Grp.abs g) (some (2, 0)) (some (2, 0)) 10 (some 1) = .entries [((2, 0), 1, 0)] := by
-  refine ⟨rfl, rfl⟩
+    Spec.pendingRange (Grp.abs g) (some (2, 0)) (some (2, 0)) 10 (some 1) = .entries [((2, 0), 1, 0)] ∧
+    Code.pendingRange Quirks.fixed g (some (2, 0)) (some (2, 0)) 10 (some 1) = .entries [((2, 0), 1, 1)] := by
+  refine ⟨rfl, rfl, rfl⟩
 
 /-- XGROUP DELCONSUMER on agreeing states: the reply is the number of rows the consumer owned, exactly those rows
     leave the pending set, the consumer disappears, the cursor is untouched. -/
